@@ -523,8 +523,13 @@ def text_case(ctx, s, text, label, expect_ok=None):
     else:
         ctx.count('text:' + ans)
     ctx.case(('text', text), nontrivial=True)
-    if expect_ok is not None and ans.startswith('ok') != expect_ok:
-        raise RuntimeError(f'harness: {label}: expected ok={expect_ok}, got {ans}')
+    if expect_ok and not ans.startswith('ok'):
+        # a VALID file of the fixed list is refused
+        ctx.violation(f'text layer: {label}: load of a valid file raised: {ans}',
+                      dict(file=text, answer=ans,
+                           tags=dict(call='dddmp.load', symptom='raises', case=label)))
+    elif expect_ok is False and ans.startswith('ok'):
+        ctx.notes.append(f'text layer: {label}: expected a refusal, the file is accepted')
     return ans
 
 
@@ -543,7 +548,10 @@ def text_layer(ctx):
              ('auxids', base_text(extra_header=['.auxids 7 9']), True),
              ('auxids-short', base_text(extra_header=['.auxids 7']), False),
              ('ver-odd', base_text(ver='x--2.-0'), True), ('ver-short', base_text(ver='DDDMP-2'), False),
-             ('comment-nodes', base_text(extra_header=['# the .nodes follow']), False),
+             ('comment-nodes', base_text(extra_header=['# the .nodes follow']), True),
+             ('indented-nodes-line', base_text().replace('.nodes', ' .nodes'), False),
+             ('nodes-line-with-tail', base_text().replace('.nodes', '.nodes 3 # here'), True),
+             ('end-line-with-tail', base_text().replace('.end', '.endx 1 2'), True),
              ('empty', '', False), ('header-only', base_text().split('.nodes')[0], False),
              ('no-end', base_text().replace('.end\n', ''), True),
              ('after-end', base_text() + 'garbage here\n', True),
@@ -562,8 +570,8 @@ def text_layer(ctx):
     for label, text, ok in fixed:
         text_case(ctx, s, text, label, expect_ok=ok)
         ctx.count('text-fixed:' + label)
-    # (ii) the name of the second variable (dotted names are NAME tokens of the lexer): a name
-    # that CONTAINS `.end` / `.nodes` makes the loader cut the file there
+    # (ii) the name of the second variable (dotted names are NAME tokens of the lexer; before f9d6f33
+    # a name that CONTAINS `.end` / `.nodes` made the loader cut the file there: F23)
     refused = []
     for nm in ODD_VAR_NAMES:
         for vi in (3, 0):
@@ -571,13 +579,13 @@ def text_layer(ctx):
             if not ans.startswith('ok'):
                 refused.append(f'{nm!r} (varinfo {vi}): {ans[4:]}')
             ctx.count('text-name')
-    ctx.notes.append('valid files refused because of the NAME of a variable (substring tests '
-                     "`'.nodes' in line`, `'.end' in line`; `T` is the label of the terminal): "
-                     + '; '.join(refused))
+    ctx.notes.append('files refused because of the NAME of a variable (`T` is the label of the terminal; '
+                     'names that contain `.end` / `.nodes` load since f9d6f33, finding F23): '
+                     + ('; '.join(refused) or 'none'))
     ctx.add_session(s, SECTIONS_L3, 'text layer: fixed')
     s.close()
     # (iii) random edits of valid files (1-3 edits each)
-    n = 500 if ctx.tier == 'quick' else 6000
+    n = 400 if ctx.tier == 'quick' else 6000
     s = Session(ctx)
     for k in range(n):
         if ctx.time_left() < 6:
@@ -841,8 +849,23 @@ def check_C16(ctx):
     _build_driver(ctx)
     quick = ctx.tier == 'quick'
     ctx.notes.append('bdd.roots is a set: root entries and returned roots are compared as sets of functions')
-    # 0. the minimal reproduction of finding F1 (roots stored untranslated; repaired in /repo)
-    #    kept as a fixed case that runs first (regression corpus)
+    # 0. regression corpus, run first.  F23 (repaired in f9d6f33): a valid `.varinfo 3` file whose
+    #    variable is called `y.end` / `y.nodes` (dots are legal in NAME tokens; dd.cudd writes the
+    #    names of its variables verbatim) was refused with AssertionError / TypeError because the
+    #    loader cut the file at the first line that CONTAINED `.end` / `.nodes`
+    s = Session(ctx)
+    for nm in ('y.end', 'y.nodes', 'x.nodes.end'):
+        F = dict(varinfo=3, nnodes=3, nvars=2, nsuppvars=2, orderedvarnames=['x', nm],
+                 suppvarnames=['x', nm], ids=[0, 1], permids=[0, 1], nroots=2, rootids=[3, -2],
+                 nodes=[(1, 'T', 1, 0, 0), (2, nm, 1, 1, -1), (3, 'x', 0, 1, 2)])
+        sp = Space(['x', nm])
+        tabs = file_tables(F, sp.masks, sp.full)
+        load_and_check(ctx, s, F, {root_table(tabs, sp.full, r) for r in F['rootids']}, sp.names,
+                       'corpus-F23', extra_tags=dict(name=nm), chain='hold')
+        ctx.case('corpus-F23 ' + nm)
+    ctx.add_session(s, SECTIONS_L3, 'corpus-F23')
+    s.close()
+    # the minimal reproduction of finding F1 (roots stored untranslated; repaired in /repo)
     s = Session(ctx)
     F = dict(varinfo=0, nnodes=3, nvars=2, nsuppvars=2, suppvarnames=['a', 'b'],
              orderedvarnames=['a', 'b'], ids=[0, 1], permids=[0, 1], nroots=2, rootids=[2, -3],
@@ -1051,5 +1074,5 @@ REGISTRY = {
             'no node survives); every file is loaded from its TEXT by the model too (loadDddmpText: line dispatch, header lexer, '
             'grammar with actions, node lines) and the two encodings must agree; generated files carry .add / .dd / odd or absent '
             '.ver / absent .mode; text layer: every header line of the grammar on a valid file, 17 odd variable names (y.end, '
-            'y.nodes, .foo, ...) in modes 3 and 0, 500 (thorough 6000) random edits of valid texts; exact-state correspondence throughout'),
+            'y.nodes, .foo, ...) in modes 3 and 0, 400 (thorough 6000) random edits of valid texts; exact-state correspondence throughout'),
 }
